@@ -4,10 +4,14 @@ package load
 import (
 	"fmt"
 	"go/ast"
+	"go/token"
 	"go/types"
 	"os"
 	"sort"
 	"strings"
+	"sync"
+
+	"golang.org/x/tools/go/ast/astutil"
 
 	"golang.org/x/tools/go/packages"
 	"golang.org/x/tools/go/ssa"
@@ -22,8 +26,14 @@ type Program struct {
 	Funcs     map[string]*ssa.Function // key: pkgpath + "." + name, e.g. ".../simpledb.floodFill", ".../recordio.(*FileWriter).Write"
 	Contracts map[string]*gcl.Contract // same key; iface contracts keyed pkgpath.Iface.Method
 	Specs     map[string]*gcl.Spec
-	Ghosts    map[string]string // ghost heap name -> element sort
+	Ghosts    map[string]*gcl.Spec // ghost heaps: name -> declaration (params = index sorts, Ret = element sort)
+	Lemmas    []*gcl.Lemma
+	Axioms    []gcl.Clause
+	Files     []string // contract files read
 	Errors    []error
+	fileOf    map[*token.File]*ast.File
+	srcOf     map[string][]byte
+	mu        sync.Mutex
 }
 
 // FuncKey computes the contract key of an SSA function.
@@ -70,7 +80,7 @@ func Load(dir string, patterns []string, tags string, extraContracts []string) (
 	prog, spkgs := ssautil.AllPackages(pkgs, ssa.NaiveForm|ssa.GlobalDebug)
 	prog.Build()
 	p := &Program{Prog: prog, Pkgs: pkgs, Funcs: map[string]*ssa.Function{}, Contracts: map[string]*gcl.Contract{},
-		Specs: map[string]*gcl.Spec{}, Ghosts: map[string]string{}}
+		Specs: map[string]*gcl.Spec{}, Ghosts: map[string]*gcl.Spec{}}
 	for _, sp := range spkgs {
 		if sp == nil {
 			continue
@@ -107,6 +117,7 @@ func Load(dir string, patterns []string, tags string, extraContracts []string) (
 					}
 				}
 			}
+			p.Files = append(p.Files, fname)
 			p.addFile(gcl.ParseComments(pk.PkgPath, fname, lines, nos))
 		}
 	})
@@ -116,6 +127,7 @@ func Load(dir string, patterns []string, tags string, extraContracts []string) (
 		if err != nil {
 			return nil, err
 		}
+		p.Files = append(p.Files, path)
 		var pkg string
 		var lines []string
 		var nos []int
@@ -148,15 +160,20 @@ func (p *Program) addFile(f *gcl.File) {
 		if c.Kind == "iface" && strings.Contains(c.Name, "/") { // fully qualified iface name
 			key = c.Name
 		}
+		if old, dup := p.Contracts[key]; dup {
+			p.Errors = append(p.Errors, fmt.Errorf("%s:%d: duplicate contract for %s (first at %s:%d)", c.File, c.Line, key, old.File, old.Line))
+		}
 		p.Contracts[key] = c
 	}
 	for _, s := range f.Specs {
-		if s.Ret == "ghost" || strings.HasPrefix(s.Ret, "ghost ") {
-			p.Ghosts[s.Name] = strings.TrimSpace(strings.TrimPrefix(s.Ret, "ghost"))
+		if s.Ghost {
+			p.Ghosts[s.Name] = s
 			continue
 		}
 		p.Specs[s.Name] = s
 	}
+	p.Lemmas = append(p.Lemmas, f.Lemmas...)
+	p.Axioms = append(p.Axioms, f.Axioms...)
 }
 
 // ---------- loops
@@ -209,3 +226,61 @@ func Loops(fn *ssa.Function) map[*ssa.BasicBlock]*LoopInfo {
 }
 
 var _ = ast.Inspect
+
+// ExprTextAt returns the source text of the innermost expression that encloses pos (whitespace normalised).
+// It is used to name branch decisions and safety obligations without line numbers.
+func (p *Program) ExprTextAt(pos token.Pos) string {
+	if !pos.IsValid() {
+		return ""
+	}
+	p.mu.Lock()
+	defer p.mu.Unlock()
+	if p.fileOf == nil {
+		p.fileOf = map[*token.File]*ast.File{}
+		p.srcOf = map[string][]byte{}
+		packages.Visit(p.Pkgs, nil, func(pk *packages.Package) {
+			for _, f := range pk.Syntax {
+				if tf := pk.Fset.File(f.Pos()); tf != nil {
+					p.fileOf[tf] = f
+				}
+			}
+		})
+	}
+	tf := p.Prog.Fset.File(pos)
+	if tf == nil {
+		return ""
+	}
+	f := p.fileOf[tf]
+	if f == nil {
+		return ""
+	}
+	path, _ := astutil.PathEnclosingInterval(f, pos, pos)
+	var node ast.Node
+	for _, n := range path {
+		if e, ok := n.(ast.Expr); ok {
+			node = e
+			break
+		}
+		if _, ok := n.(ast.Stmt); ok {
+			node = n
+			break
+		}
+	}
+	if node == nil {
+		return ""
+	}
+	src, ok := p.srcOf[tf.Name()]
+	if !ok {
+		src, _ = os.ReadFile(tf.Name())
+		p.srcOf[tf.Name()] = src
+	}
+	a, b := tf.Offset(node.Pos()), tf.Offset(node.End())
+	if a < 0 || b > len(src) || a >= b {
+		return ""
+	}
+	txt := strings.Join(strings.Fields(string(src[a:b])), " ")
+	if len(txt) > 80 {
+		txt = txt[:80] + "…"
+	}
+	return txt
+}
